@@ -167,11 +167,12 @@ Qed.
 Lemma start_bans V C c s p' s' r : start V C c s = (p', s', r) ->
   (bans s' = bans s \/
    (exists ip dur, c = CBan ip dur /\ bans s' = put V (bans s) ip (mk_expiry (now s) dur)) \/
-   (exists ip, c = CUnban ip /\ bans s' = upd (bans s) ip None)) /\
+   (exists ip, c = CUnban ip /\ bans s' = upd (bans s) ip None) \/
+   (c = CRestart /\ bans s' = fun _ => None)) /\
   (forall n0, p' = PCleanB n0 -> n0 = now s).
 Proof.
   destruct c; unfold start, do_fail_a, do_ban; intros H; break_lets; pair_inv H; cbn;
-    (split; [|intros n0 Hn; congruence]); eauto 6.
+    (split; [|intros n0 Hn; congruence]); eauto 7.
 Qed.
 
 Lemma continue_bans V C p s p' s' r : continue V C p s = (p', s', r) ->
@@ -187,7 +188,8 @@ Qed.
 (* ------------------------------------------------------------------------------------------- *)
 (* (1) lock-out: a ban in force stays in force until its deadline under every schedule          *)
 (* ------------------------------------------------------------------------------------------- *)
-Definition is_unban (ip : N) (c : call) : bool := match c with CUnban k => N.eqb k ip | _ => false end.
+(* what removes a ban in force: the administrative UnbanIP(ip), and a process restart (bans live in memory only) *)
+Definition is_unban (ip : N) (c : call) : bool := match c with CUnban k => N.eqb k ip | CRestart => true | _ => false end.
 Definition no_unban (ip : N) (rest : list call) : Prop := forallb (fun c => negb (is_unban ip c)) rest = true.
 
 Definition thr_lock (ip : N) (s : sh) (l : lo) : Prop :=
@@ -225,11 +227,12 @@ Proof.
       destruct p.
       * destruct rest as [|c rest]; [injection Hs as <- <-; exact HP|].
         destruct (start current_variant C c s) as [[p1 s1] r1] eqn:Es. injection Hs as <- <-.
-        destruct (start_bans _ _ _ _ _ _ _ Es) as [[Hb | [(k & dur & -> & Hb) | (k & -> & Hb)]] _]; rewrite Hb.
+        destruct (start_bans _ _ _ _ _ _ _ Es) as [[Hb | [(k & dur & -> & Hb) | [(k & -> & Hb) | (-> & Hb)]]] _]; rewrite Hb.
         -- exact HP.
         -- apply covers_put_current, HP.
         -- apply covers_upd_other; [|exact HP]. unfold no_unban in Hnu. cbn in Hnu.
            apply andb_prop in Hnu. destruct Hnu as [Hk _]. intros ->. rewrite N.eqb_refl in Hk. discriminate.
+        -- unfold no_unban in Hnu. cbn in Hnu. discriminate Hnu.
       * destruct (continue current_variant C (PFailB ip0 d res) s) as [[p1 s1] r1] eqn:Es. injection Hs as <- <-.
         destruct (continue_bans _ _ _ _ _ _ _ Es) as [[Hb | [(k & e & Hb) | (n0 & Hn0 & Hb)]] _]; rewrite Hb;
           [exact HP | apply covers_put_current, HP | discriminate Hn0].
@@ -408,11 +411,11 @@ Lemma start_bl V C c s p' s' r : start V C c s = (p', s', r) ->
   (bl s' = bl s \/
    (exists ip dur, c = CBlAdd ip dur /\ bl s' = upd (bl s) ip (Some (mk_expiry (now s) dur))) \/
    (exists ip, c = CBlRm ip /\ bl s' = upd (bl s) ip None) \/
-   (c = CBlCleanup /\ bl s' = sweep (now s) (bl s))) /\
+   ((c = CBlCleanup \/ c = CRestart) /\ bl s' = sweep (now s) (bl s))) /\
   (wl s' = wl s \/ (exists ip, c = CWlAdd ip /\ wl s' = upd (wl s) ip true)
                 \/ (exists ip, c = CWlRm ip /\ wl s' = upd (wl s) ip false)).
 Proof.
-  destruct c; unfold start, do_fail_a, do_ban; intros H; break_lets; pair_inv H; cbn; split; eauto 7.
+  destruct c; unfold start, do_fail_a, do_ban; intros H; break_lets; pair_inv H; cbn; split; eauto 9.
 Qed.
 
 Lemma continue_bl V C p s p' s' r : continue V C p s = (p', s', r) -> bl s' = bl s /\ wl s' = wl s.
@@ -420,12 +423,55 @@ Proof.
   destruct p; unfold continue, do_fail_a, do_ban; intros H; break_lets; pair_inv H; cbn; auto.
 Qed.
 
+(* the entry IsAllowed finds for ip (findInList: the exact key, else the CIDR entry containing ip) lasts until
+   the deadline *)
+Definition entry_covers (m : emap) (ip : N) (dlo : option Z) : Prop :=
+  covers m ip dlo \/ (m ip = None /\ covers m (cidr_of ip) dlo).
+
+Lemma entry_covers_in_force m ip dlo t :
+  entry_covers m ip dlo -> within t dlo -> in_force t m (rec_key m ip) = true.
+Proof.
+  intros [Hc | [Hn Hc]] Hw; unfold rec_key.
+  - destruct (covers_not_expired _ _ _ _ Hc Hw) as (e & He & _). rewrite He. eapply covers_in_force; eauto.
+  - rewrite Hn. eapply covers_in_force; eauto.
+Qed.
+
+Lemma entry_covers_upd_other m ip k v dlo :
+  ip <> k -> cidr_of ip <> k -> entry_covers m ip dlo -> entry_covers (upd m k v) ip dlo.
+Proof.
+  intros H1 H2 [Hc | [Hn Hc]]; [left; apply covers_upd_other; assumption|].
+  right. split; [rewrite upd_other by exact H1; exact Hn | apply covers_upd_other; assumption].
+Qed.
+
+Lemma entry_covers_sweep m ip dlo n0 : entry_covers m ip dlo -> within n0 dlo -> entry_covers (sweep n0 m) ip dlo.
+Proof.
+  intros [Hc | [Hn Hc]] Hw; [left; apply covers_sweep; assumption|].
+  right. split; [unfold sweep; rewrite Hn; reflexivity | apply covers_sweep; assumption].
+Qed.
+
+Lemma entry_covers_spawned m ip k dlo t :
+  entry_covers m ip dlo -> within t dlo -> entry_covers (spawned_remove current_variant t m k) ip dlo.
+Proof.
+  intros [Hc | [Hn Hc]] Hw; [left; apply covers_spawned_current; assumption|].
+  right. split; [|apply covers_spawned_current; assumption].
+  unfold spawned_remove. cbn [cond_unban current_variant].
+  destruct (m k) as [e|] eqn:Ek; [destruct (expired t e)|]; auto.
+  unfold upd. destruct (N.eqb ip k); auto.
+Qed.
+
+(* administrative edits of the entries that decide ip: its own key and the key of its CIDR group *)
 Definition touches_bl (ip : N) (c : call) : bool :=
-  match c with CBlAdd k _ | CBlRm k | CWlAdd k => N.eqb k ip | _ => false end.
+  match c with CBlAdd k _ | CBlRm k | CWlAdd k => N.eqb k ip || N.eqb k (cidr_of ip) | _ => false end.
 Definition thr_bl (ip : N) (l : lo) : Prop :=
   match l with LProg _ rest _ => forallb (fun c => negb (touches_bl ip c)) rest = true | _ => True end.
 Definition P_bl (ip : N) (dlo : option Z) (s : sh) : Prop :=
-  wl s ip = false /\ (within (now s) dlo -> covers (bl s) ip dlo).
+  wl_in (wl s) ip = false /\ (within (now s) dlo -> entry_covers (bl s) ip dlo).
+
+Lemma touches_false ip k : N.eqb k ip || N.eqb k (cidr_of ip) = false -> ip <> k /\ cidr_of ip <> k.
+Proof.
+  intros H. apply orb_false_elim in H. destruct H as [H1 H2].
+  split; intros <-; rewrite N.eqb_refl in *; discriminate.
+Qed.
 
 Lemma bl_step C ip dlo s l l' s' :
   P_bl ip dlo s -> thr_bl ip l -> tstep current_variant C l s = (l', s') ->
@@ -440,7 +486,7 @@ Proof.
       destruct (pend s); injection Hs as <- <-; split; assumption.
     + destruct cs; [injection Hs as <- <-; split; assumption|].
       destruct (pendbl s); injection Hs as <- <-; (split; [exact Hwl|]); [exact HP|].
-      cbn. intros Hw. apply covers_spawned_current; auto.
+      cbn. intros Hw. apply entry_covers_spawned; auto.
     + destruct p.
       * destruct rest as [|c rest]; [injection Hs as <- <-; split; assumption|].
         destruct (start current_variant C c s) as [[p1 s1] r1] eqn:Es. injection Hs as <- <-.
@@ -448,14 +494,18 @@ Proof.
         pose proof (start_now _ _ _ _ _ _ _ Es) as Hn.
         destruct (start_bl _ _ _ _ _ _ _ Es) as [Hb Hw]. split.
         -- destruct Hw as [Hw | [(k & -> & Hw) | (k & -> & Hw)]]; rewrite Hw; [exact Hwl| |].
-           ++ cbn in Hc. rewrite upd_other; [exact Hwl|]. intros ->. rewrite N.eqb_refl in Hc. discriminate.
-           ++ unfold upd. destruct (N.eqb ip k); [reflexivity|exact Hwl].
+           ++ cbn in Hc. apply negb_true_iff in Hc. destruct (touches_false _ _ Hc) as [H1 H2].
+              unfold wl_in in *. rewrite !upd_other by assumption. exact Hwl.
+           ++ unfold wl_in in *. apply orb_false_elim in Hwl. destruct Hwl as [Ha Hb'].
+              unfold upd. destruct (N.eqb ip k), (N.eqb (cidr_of ip) k); cbn; rewrite ?Ha, ?Hb'; reflexivity.
         -- rewrite Hn. intros Hw'. specialize (HP Hw').
-           destruct Hb as [Hb | [(k & dur & -> & Hb) | [(k & -> & Hb) | (-> & Hb)]]]; rewrite Hb.
+           destruct Hb as [Hb | [(k & dur & -> & Hb) | [(k & -> & Hb) | (_ & Hb)]]]; rewrite Hb.
            ++ exact HP.
-           ++ cbn in Hc. apply covers_upd_other; [|exact HP]. intros ->. rewrite N.eqb_refl in Hc. discriminate.
-           ++ cbn in Hc. apply covers_upd_other; [|exact HP]. intros ->. rewrite N.eqb_refl in Hc. discriminate.
-           ++ apply covers_sweep; assumption.
+           ++ cbn in Hc. apply negb_true_iff in Hc. destruct (touches_false _ _ Hc) as [H1 H2].
+              apply entry_covers_upd_other; assumption.
+           ++ cbn in Hc. apply negb_true_iff in Hc. destruct (touches_false _ _ Hc) as [H1 H2].
+              apply entry_covers_upd_other; assumption.
+           ++ apply entry_covers_sweep; assumption.
       * destruct (continue current_variant C (PFailB ip0 d res) s) as [[p1 s1] r1] eqn:Es. injection Hs as <- <-.
         destruct (continue_bl _ _ _ _ _ _ _ Es) as [Hb Hw]. unfold P_bl.
         rewrite Hb, Hw, (continue_now _ _ _ _ _ _ _ Es). split; assumption.
@@ -486,8 +536,9 @@ Proof.
       * destruct (continue current_variant C (PHsAuth ip0 k) s) as [[p1 s1] r1]. injection Hs as <- <-. exact HT.
 Qed.
 
+(* thread programs may contain ANY number of restarts at any points (CRestart is not excluded by thr_bl) *)
 Theorem blacklisted_refused C ip dlo (s : sst) sched :
-  Forall (thr_bl ip) (snd s) -> wl (fst s) ip = false -> covers (bl (fst s)) ip dlo ->
+  Forall (thr_bl ip) (snd s) -> wl_in (wl (fst s)) ip = false -> entry_covers (bl (fst s)) ip dlo ->
   let s' := runs current_variant C s sched in
   within (now (fst s')) dlo -> is_allowed (fst s') ip = false.
 Proof.
@@ -497,7 +548,7 @@ Proof.
   - split; [exact Hwl|]. intros _. exact Hc.
   - exact HT.
   - unfold is_allowed. subst s'. rewrite Hwl'.
-    rewrite (covers_in_force _ _ _ _ (HP Hw) Hw). reflexivity.
+    rewrite (entry_covers_in_force _ _ _ _ (HP Hw) Hw). reflexivity.
 Qed.
 
 (* ------------------------------------------------------------------------------------------- *)
@@ -647,10 +698,11 @@ Proof.
   - destruct p.
     + destruct rest as [|c rest]; [injection Hs as <- <-; congruence|].
       destruct (start V C c s) as [[p1 s1] r1] eqn:Es. injection Hs as <- <-.
-      destruct (start_bans _ _ _ _ _ _ _ Es) as [[Hb | [(k & dur & -> & Hb) | (k & -> & Hb)]] _];
-        rewrite Hb in H1; [congruence| |].
+      destruct (start_bans _ _ _ _ _ _ _ Es) as [[Hb | [(k & dur & -> & Hb) | [(k & -> & Hb) | (-> & Hb)]]] _];
+        rewrite Hb in H1; [congruence| | |].
       * destruct (N.eqb_spec ip k) as [->|Hne]; [left; eauto|]. rewrite put_other in H1 by exact Hne. congruence.
       * exfalso. apply H1. unfold upd. destruct (N.eqb ip k); auto.
+      * exfalso. apply H1. reflexivity.
     + destruct (N.eqb_spec ip ip0) as [->|Hne].
       * destruct d; [|right; exists DTemp; eauto 6; repeat eexists; congruence
                       |right; exists DPerm; repeat eexists; congruence].
@@ -812,3 +864,53 @@ Proof. vm_compute. split; reflexivity. Qed.
 Lemma anon_registration_keeps_failures C ip s :
   continue current_variant C (PHsAuth ip HAnonOk) s = (PIdle, s, Some 4%N).
 Proof. reflexivity. Qed.
+
+(* ------------------------------------------------------------------------------------------- *)
+(* restarts                                                                                    *)
+(* ------------------------------------------------------------------------------------------- *)
+(* the ban list of the BruteForceProtector lives in memory only (the type's comment plans Redis): a permanent
+   ban does not survive a restart — statement (1) with restarts allowed is false of the code as it is *)
+Definition wit4_threads : list lo := [LProg PIdle [CBan 7 0; CQuery 7; CRestart; CQuery 7] []].
+Lemma ban_lost_on_restart_refuted :
+  exists C ip threads pre sched,
+    let s1 := runs current_variant C (init_sh, threads) pre in
+    let s2 := runs current_variant C s1 sched in
+    covers (bans (fst s1)) ip None /\ is_banned (fst s1) ip = true /\
+    nth_error (snd s2) 0 = Some (LProg PIdle [] [0; 1; 0; 0]%N) /\ is_banned (fst s2) ip = false.
+Proof.
+  exists wit_cfg, 7%N, wit4_threads, [O], [O; O; O].
+  split; [vm_compute; exact I|]. vm_compute. repeat split; reflexivity.
+Qed.
+
+(* non-vacuity of blacklisted_refused with restarts and CIDR entries: a permanent exact entry (7), a permanent
+   CIDR entry (key 1002 = the group of address 40), a temporary entry (9, 500 ticks); two restarts *)
+Definition wit5_threads : list lo :=
+  [LProg PIdle [CBlAdd 7 0; CBlAdd 1002 0; CBlAdd 9 500; CRestart; CAllowed 7; CAllowed 40; CAllowed 9; CAllowed 41;
+                CRestart; CAllowed 9; CAllowed 7; CAllowed 40; CAllowed 50] []; LClock [100; 1000]; LRunBl [O]].
+Lemma blacklist_survives_restarts_example :
+  let s1 := runs current_variant wit_cfg (init_sh, wit5_threads) [0; 0; 0]%nat in
+  Forall (thr_bl 40) [LProg PIdle [CRestart; CAllowed 7; CAllowed 40; CRestart; CBlAdd 9 5; CBlRm 7] []; LClock [100; 1000]; LRunBl [O]] /\
+  wl_in (wl (fst s1)) 40 = false /\ entry_covers (bl (fst s1)) 40 None /\ entry_covers (bl (fst s1)) 7 None /\
+  entry_covers (bl (fst s1)) 9 (Some 500) /\
+  (* +100, restart, four queries, +1000, restart, four queries: 9 is refused with time left and let through once lapsed *)
+  nth_error (snd (runs current_variant wit_cfg s1 [1; 0; 0; 0; 0; 0; 1; 0; 0; 2; 0; 0; 0]%nat)) 0
+  = Some (LProg PIdle [] [0; 0; 0; 0; 0; 0; 0; 0; 0; 1; 0; 0; 1]%N).
+Proof.
+  split; [repeat constructor|]. split; [vm_compute; reflexivity|].
+  split; [right; split; vm_compute; [reflexivity|exact I]|].
+  split; [left; vm_compute; exact I|]. split; [left; vm_compute; discriminate|].
+  vm_compute. reflexivity.
+Qed.
+
+(* findInList returns the exact-key record before the range entry; when that record has lapsed IsAllowed lets the
+   address through although the range entry is in force (known finding expired-exact-entry-shadows-cidr): the
+   hypothesis `m ip = None` of the range case of entry_covers cannot be dropped *)
+Lemma expired_exact_entry_shadows_range_refuted :
+  exists threads sched,
+    let s2 := runs current_variant wit_cfg (init_sh, threads) sched in
+    covers (bl (fst s2)) (cidr_of 40) None /\ wl_in (wl (fst s2)) 40 = false /\
+    nth_error (snd s2) 0 = Some (LProg PIdle [] [0; 0; 1]%N).
+Proof.
+  exists [LProg PIdle [CBlAdd 1002 0; CBlAdd 40 70; CAllowed 40] []; LClock [150]], [O; O; 1%nat; O].
+  split; [vm_compute; exact I|]. vm_compute. split; reflexivity.
+Qed.
